@@ -474,6 +474,13 @@ pub(crate) fn verif_stats() -> crate::verif::Stats {
 }
 
 #[cfg(fastrace_verif)]
+pub(crate) fn verif_parked_commands() -> Option<usize> {
+    COMMAND_SENDER
+        .try_with(|sender| unsafe { (*sender.get()).verif_parked() })
+        .ok()
+}
+
+#[cfg(fastrace_verif)]
 pub(crate) fn verif_touch_sender() -> Option<usize> {
     COMMAND_SENDER
         .try_with(|sender| unsafe { (*sender.get()).verif_chan() })
